@@ -506,6 +506,7 @@ def run(idx: ProgramIndex, rep: Report, tier: str):
     rep.rule("C20-5", "no code outside the protocol methods of setting classes writes a global setting field")
     rep.rule("C20-6", "inside gpytorch every setting is entered as `with S(...)` on a fresh instance")
     rep.rule("C20-7", "documented default equals coded default")
+    rep.rule("C20-8", "a value argument is told apart from 'not given' by `is None`, never by truthiness: a block entered with 0 / 0.0 / False sets that value")
 
     exported = exported_settings(idx, rep)
     rep.floor("C20-1", "exported names", len(exported), 44)
@@ -550,6 +551,7 @@ def run(idx: ProgramIndex, rep: Report, tier: str):
     check_who_may_write(idx, rep, family, fields)
     check_with_sites(idx, rep, family)
     check_doc_defaults(idx, rep, models)
+    check_given_vs_default(idx, rep, family)
     rep.assume("the class-attribute defaults of setting classes are only changed through the protocol (checked inside gpytorch by C20-5; user code and linear_operator internals are out of scope)")
     rep.assume("a setting instance is entered at most once and immediately after construction (checked for every site inside gpytorch by C20-6)")
 
@@ -936,3 +938,67 @@ def check_doc_defaults(idx: ProgramIndex, rep: Report, models: Dict[Tuple[str, s
                     {"documented": text, "coded": str(coded)})
     rep.analysed["C20-7 classes without a parsable documented default (skipped)"] = skipped
     rep.floor("C20-7", "documented defaults compared", n, 40)
+
+
+# ---- C20-8 ---------------------------------------------------------------------------------------------------------
+CONTROL_C20_8 = '''
+class control_setting:
+    def __init__(self, float_value=None, double_value=None):
+        self._a = float_value or self._orig_a
+        self._b = double_value if double_value is not None else self._orig_b
+        self._c = float_value if float_value else self._orig_a
+'''
+
+
+def _truthiness_selections(fn: ast.AST, params: List[str]) -> Tuple[List[ast.AST], List[ast.AST]]:
+    """(selections by truthiness, selections by `is None`) between a None-defaulted value parameter and a fallback"""
+    bad, good = [], []
+    for n in ast.walk(fn):
+        if isinstance(n, ast.BoolOp) and isinstance(n.op, ast.Or) and isinstance(n.values[0], ast.Name) and n.values[0].id in params:
+            bad.append(n)
+        elif isinstance(n, (ast.IfExp, ast.If)):
+            t = n.test
+            neg = False
+            while isinstance(t, ast.UnaryOp) and isinstance(t.op, ast.Not):
+                t, neg = t.operand, not neg
+            if isinstance(t, ast.Name) and t.id in params:
+                bad.append(n)
+            elif isinstance(t, ast.Compare) and len(t.ops) == 1 and isinstance(t.ops[0], (ast.Is, ast.IsNot)) and isinstance(t.left, ast.Name) and t.left.id in params \
+                    and isinstance(t.comparators[0], ast.Constant) and t.comparators[0].value is None:
+                good.append(n)
+    return bad, good
+
+
+def check_given_vs_default(idx: ProgramIndex, rep: Report, family: set):
+    import ast as _ast
+    ctl = _ast.parse(CONTROL_C20_8).body[0].body[0]
+    b, g = _truthiness_selections(ctl, ["float_value", "double_value"])
+    if (len(b), len(g)) != (2, 1):
+        raise AnalysisError("C20-8: positive control not matched (%d truthiness selections, %d `is None` selections)" % (len(b), len(g)))
+    rep.add("C20-8", "positive-control", "<control fragment>", True, "`x or default` and `x if x else default` are told apart from `x if x is not None else default`", trivial=True)
+    n = 0
+    for key in sorted(family):
+        ci = idx.classes.get(key)
+        if ci is None:
+            continue
+        for mname in ("__init__", "__call__", "_set_value", "_set_state"):
+            fi = ci.methods.get(mname)
+            if fi is None:
+                continue
+            a = fi.node.args
+            allp = a.posonlyargs + a.args + a.kwonlyargs
+            defaults = [None] * (len(a.posonlyargs + a.args) - len(a.defaults)) + list(a.defaults) + list(a.kw_defaults)
+            # value parameters: defaulted to None (absence marker), i.e. 0 / 0.0 / False are legal explicit values
+            vparams = [p.arg for p, d in zip(allp, defaults) if isinstance(d, ast.Constant) and d.value is None]
+            if mname in ("_set_value", "_set_state"):
+                vparams = [p.arg for p in allp[1:]]
+            if not vparams:
+                continue
+            bad, good = _truthiness_selections(fi.node, vparams)
+            if not bad and not good:
+                continue
+            n += 1
+            rep.add("C20-8", "%s:%s.%s" % (ci.module.name, ci.qualname, mname), fi.where, not bad,
+                    "%d selection(s) between a given value and the fallback, all by `is None`" % len(good) if not bad else
+                    "`%s` selects the fallback whenever the argument is falsy: a block entered with 0 (or 0.0 / False) does not set that value, so the innermost block no longer determines it" % " ".join(src(bad[0]).split())[:70], {"by_is_none": len(good)})
+    rep.floor("C20-8", "methods selecting between a given value and a fallback", n, 2)
